@@ -92,6 +92,15 @@ where
         &self,
         symbol: impl Borrow<Self::Symbol>,
     ) -> Option<(Self::Probability, <Self::Probability as BitArray>::NonZero)> {
+        // Check the range before narrowing `symbol` to `Probability`: symbols far outside the
+        // support must not alias a symbol within the support.
+        if self
+            .last_symbol
+            .to_usize()
+            .map_or(false, |last_symbol| *symbol.borrow() > last_symbol)
+        {
+            return None;
+        }
         let symbol = symbol.borrow().as_();
         let left_cumulative = symbol.wrapping_mul(&self.probability_per_bin.get());
 
